@@ -731,6 +731,114 @@ C14Scope ==
   \cup UNION {{C14Differ(t, e, o1) : e \in Edits(t) \ {t}, o1 \in {<<>>, <<ObsOn("source", 0)>>, <<HashOn(0)>>}} :
                t \in BaseTrees}
 
+-----------------------------------------------------------------------------
+(* SourceMap JSON (C15): strings over quotes, backslashes, control          *)
+(* characters, U+2028/2029, a 2-byte and an astral character (as UTF-8)     *)
+U2028 == <<226, 128, 168>>
+U2029 == <<226, 128, 169>>
+UE9 == <<195, 169>>
+U1F600 == <<240, 159, 152, 128>>
+JStrings ==
+  {<<>>, <<cA>>, <<34>>, <<92>>, <<0>>, <<31>>, <<127>>, U2028, U2029, UE9, U1F600,
+   <<cA, 34, cB, 92, 92, 34>>, <<92, 110, 10, 13, 9, 8, 12>>,
+   <<34>> \o U2028 \o <<0>> \o U1F600 \o <<92>> \o UE9 \o <<127, 31>> \o U2029}
+JSeqs == UNION {[1..k -> JStrings] : k \in 0..2}
+JOpt == {<<>>} \cup {<<x>> : x \in JStrings}
+JMap(m, sources, contents, names, root, file, dbg) ==
+  [m |-> m, sources |-> sources, contents |-> contents, names |-> names,
+   root |-> root, file |-> file, dbg |-> dbg]
+ToJsonProg(v) == Prog(<<[op |-> "to_json", map |-> v]>>)
+AAAA == <<65, 65, 65, 65>>
+
+C15Values ==
+  {JMap(AAAA, s, c, <<>>, <<>>, <<>>, <<>>) :
+     s \in JSeqs, c \in {<<>>, <<<<>>>>, <<<<>>, <<>>>>, <<<<cX>>>>, <<<<>>, <<cX>>>>}}
+  \cup {JMap(AAAA, <<<<cA>>>>, c, <<>>, <<>>, <<>>, <<>>) : c \in JSeqs}
+  \cup {JMap(AAAA, <<<<cA>>>>, <<>>, n, <<>>, <<>>, <<>>) : n \in JSeqs}
+  \cup {JMap(m, <<<<cA>>>>, <<<<cX>>>>, <<<<cB>>>>, ro, f, d) :
+          m \in {<<>>, AAAA, <<SEMI, SEMI>>, <<34, 92>>}, ro \in {<<>>, <<<<>>>>, <<<<114, 47>>>>},
+          f \in {<<>>, <<<<34>>>>}, d \in {<<>>, <<U2028>>}}
+  \cup {JMap(AAAA, <<>>, <<>>, <<>>, ro, f, d) : ro \in JOpt, f \in {<<>>, <<<<cA>>>>}, d \in {<<>>, <<<<cB>>>>}}
+  \cup {JMap(AAAA, <<>>, <<>>, <<>>, <<>>, f, d) : f \in JOpt, d \in JOpt}
+
+(* documents with nulls, missing arrays and reordered keys                  *)
+DocEntrySets == {<<>>, <<<<>>>>, <<<<<<cA>>>>>>, <<<<>>, <<<<cB>>>>>>, <<<<U2028>>, <<>>, <<<<34>>>>>>}
+DocField(k, kind, v) == <<k, kind, v>>
+DocBase(src, cont, nms) ==
+  <<DocField("version", "num", 3), DocField("sources", "strs", src),
+    DocField("sourcesContent", "strs", cont), DocField("names", "strs", nms),
+    DocField("mappings", "str", AAAA), DocField("file", "str", <<cA>>),
+    DocField("sourceRoot", "str", <<114>>), DocField("debugId", "str", <<100>>)>>
+DropKeys(fs, K) == SelectSeq(fs, LAMBDA fld : fld[1] \notin K)
+DocProg(fs) == Prog(<<[op |-> "parse_doc", fields |-> fs]>>)
+DocKeys == {"version", "sources", "sourcesContent", "names", "mappings", "file", "sourceRoot", "debugId"}
+
+C15Docs ==
+  {DocProg(DocBase(a, b, c)) : a \in DocEntrySets, b \in DocEntrySets, c \in DocEntrySets}
+  \cup {DocProg(DropKeys(DocBase(<<<<<<cA>>>>>>, <<<<>>>>, <<>>), K)) : K \in SUBSET DocKeys}
+  \cup {DocProg(Reverse(DropKeys(DocBase(<<<<>>, <<<<cA>>>>>>, <<<<<<cX>>>>>>, <<<<>>>>), K))) :
+          K \in {KK \in SUBSET DocKeys : Cardinality(KK) <= 2}}
+  \cup {DocProg(<<DocField("mappings", kind, 0)>>) : kind \in {"num", "null"}}
+  \cup {DocProg(<<DocField("sources", "null", 0), DocField("mappings", "str", <<>>),
+                  DocField("names", "null", 0), DocField("file", "null", 0),
+                  DocField("x", "strs", <<<<>>>>)>>)}
+
+C15Scope == IF Scope # "c15" THEN {} ELSE {ToJsonProg(v) : v \in C15Values} \cup C15Docs
+
+-----------------------------------------------------------------------------
+(* ropes (C16): pairs of rope expressions over a piece table that contains  *)
+(* the empty string, line breaks and 1-4 byte characters                    *)
+RopePieces == <<<<>>, <<cA>>, <<NL>>, <<cA, NL>>, UE9, U1F600, <<cA, cB>>>>
+RNew == <<"new">>
+RFrom(p) == <<"from", p>>
+RIter(ps) == <<"from_iter", ps>>
+RAdd(e, p) == <<"add", e, p>>
+RApp(e, f) == <<"append", e, f>>
+RSlice(e, a, b) == <<"slice", e, a, b>>
+RLine(e, k) == <<"line", e, k>>
+
+RECURSIVE RLen(_)
+RLen(e) ==
+  CASE e[1] = "new" -> 0
+    [] e[1] = "from" -> Len(RopePieces[e[2] + 1])
+    [] e[1] = "from_iter" -> Len(FlattenSeq([i \in 1..Len(e[2]) |-> RopePieces[e[2][i] + 1]]))
+    [] e[1] = "add" -> RLen(e[2]) + Len(RopePieces[e[3] + 1])
+    [] e[1] = "append" -> RLen(e[2]) + RLen(e[3])
+    [] OTHER -> 0
+
+RE0Slim ==
+  {RNew, RFrom(1), RFrom(3), RFrom(4), RIter(<<>>), RIter(<<1, 4>>), RIter(<<0, 1>>),
+   RIter(<<3, 5, 2>>), RIter(<<4>>), RAdd(RNew, 0), RAdd(RNew, 1)}
+RE0 ==
+  {RNew} \cup {RFrom(p) : p \in 0..6}
+  \cup {RIter(ps) : ps \in UNION {[1..k -> 0..5] : k \in 0..2}}
+RE1 ==
+  RE0
+  \cup {RAdd(e, p) : e \in RE0Slim, p \in {0, 1, 2, 4}}
+  \cup {RApp(e, f) : e \in RE0Slim, f \in RE0Slim}
+  \cup UNION {{RSlice(e, q[1], q[2]) : q \in {w \in (0..(RLen(e) + 1)) \X (0..(RLen(e) + 1)) : w[1] <= w[2]}} :
+                e \in RE0Slim}
+  \cup {RLine(e, k) : e \in RE0Slim, k \in 0..2}
+RE2 ==
+  LET x == RApp(RIter(<<1, 4>>), RFrom(3))
+      y == RApp(RAdd(RNew, 2), RIter(<<5, 0, 1>>))
+  IN {RSlice(z, q[1], q[2]) : z \in {x, y}, q \in {w \in (0..8) \X (0..8) : w[1] <= w[2]}}
+     \cup {RApp(RLine(RIter(<<3, 5, 2>>), k), RAdd(RNew, 1)) : k \in 0..2}
+     \cup {RApp(RSlice(RFrom(6), 1, 2), RSlice(RIter(<<1, 4>>), 1, 3)),
+           RAdd(RApp(RNew, RAdd(RNew, 0)), 0),
+           RSlice(RApp(RFrom(6), RAdd(RNew, 2)), 0, 2),
+           RApp(RApp(RFrom(6), RAdd(RNew, 0)), RFrom(1))}
+
+RopeProg(a, b) ==
+  [kind |-> "rope", pieces |-> RopePieces,
+   steps |-> <<[op |-> "rope_obs", a |-> a, b |-> b]>>]
+
+C16Scope ==
+  IF Scope \notin {"c16", "c16full"} THEN {} ELSE
+  LET big == RE1 \cup RE2
+      small == IF Scope = "c16" THEN RE0Slim ELSE RE0 \cup RE2
+  IN {RopeProg(a, b) : a \in big, b \in small} \cup {RopeProg(a, b) : a \in small, b \in big}
+
 (* size of buffer() is not known to the generator; writers are placed at    *)
 (* every budget up to a bound that covers these small trees                 *)
 ProgSet ==
@@ -741,6 +849,8 @@ ProgSet ==
     [] Scope = "c06r" -> C06RScope
     [] Scope = "c08" -> C08Scope
     [] Scope = "c12" -> C12Scope
+    [] Scope \in {"c16", "c16full"} -> C16Scope
+    [] Scope = "c15" -> C15Scope
     [] Scope = "c14" -> C14Scope
     [] Scope = "c20" -> C20Scope
     [] Scope \in {"c10", "c10full"} -> C10Scope
